@@ -38,6 +38,10 @@ type c03Case struct {
 	// suffix and keep its stem as the sibling
 	Name    string `json:"name,omitempty"`
 	Sibling string `json:"sibling,omitempty"`
+	// fs layer: how the i-th chunk is written (w = Write, s = WriteString, a = WriteAt at the
+	// current end) and whether a Sync follows it
+	Via  string `json:"via,omitempty"`
+	Sync string `json:"sync,omitempty"`
 }
 
 func (c c03Case) names() (string, string) {
@@ -350,9 +354,32 @@ func c03FS(f failer, cfg world.Cfg, c c03Case) {
 		lo, hi := len(content)*i/n, len(content)*(i+1)/n
 		var wn int
 		var err error
-		checkObs(f, hist.Call("Write", func() { wn, err = sl.H.Write(content[lo:hi]) }), "write")
+		via := byte('w')
+		if i < len(c.Via) {
+			via = c.Via[i]
+		}
+		checkObs(f, hist.Call("Write", func() {
+			switch via {
+			case 's':
+				wn, err = sl.H.WriteString(string(content[lo:hi]))
+			case 'a':
+				wn, err = sl.H.WriteAt(content[lo:hi], int64(lo))
+				if err == nil {
+					// where WriteAt leaves the cursor is not specified: place it
+					_, err = sl.H.Seek(int64(hi), io.SeekStart)
+				}
+			default:
+				wn, err = sl.H.Write(content[lo:hi])
+			}
+		}), "write")
 		if err != nil || wn != hi-lo {
-			failf(f, "Write of %d bytes returned %d, %v", hi-lo, wn, err)
+			failf(f, "Write (%c) of %d bytes returned %d, %v", via, hi-lo, wn, err)
+		}
+		if i < len(c.Sync) && c.Sync[i] == 'y' {
+			checkObs(f, hist.Call("Sync", func() { err = sl.H.Sync() }), "sync")
+			if err != nil {
+				failf(f, "Sync after chunk %d failed: %v", i, err)
+			}
 		}
 	}
 	must(hist.Step{Op: "close", Slot: 0})
@@ -428,6 +455,10 @@ func TestC03(t *testing.T) {
 		c.Seed = rapid.Uint64Range(0, 1<<20).Draw(t, "seed")
 		c.Chunks = rapid.IntRange(1, 4).Draw(t, "chunks")
 		c.BadLevel = rapid.IntRange(0, 4).Draw(t, "bad_level") == 0
+		if rapid.Bool().Draw(t, "mixed_writes") {
+			c.Via = rapid.StringOfN(rapid.SampledFrom([]rune("wwsa")), c.Chunks, c.Chunks, -1).Draw(t, "via")
+			c.Sync = rapid.StringOfN(rapid.SampledFrom([]rune("nny")), c.Chunks, c.Chunks, -1).Draw(t, "sync")
+		}
 		c.FileSrc = rapid.Bool().Draw(t, "file_source")
 		if c.Layer != "codec" && rapid.IntRange(0, 4).Draw(t, "tape_like") == 0 {
 			c.TapeLike = true
